@@ -201,6 +201,8 @@ pub struct RunOutcome {
 
 pub struct Driver<'a> {
     pub out: &'a mut dyn Write,
+    /// lock / queue events go here (one json line each) instead of into the step records
+    pub locks: Option<&'a mut dyn Write>,
     pub run_no: i64,
     pub step_timeout: Duration,
 }
@@ -396,10 +398,12 @@ impl<'a> Driver<'a> {
         };
         let _ = &ctl.hash_to_key;
         let mut step_no: i64 = 0;
+        let lock_names: HashMap<i64, String> = cache.verif_lock_ids().into_iter().collect();
+        let _ = sched.drain_events();
         let mut state = ctl.state();
         self.emit(&StepRec {
             t: "reset".to_string(), run: self.run_no, i: 0, actor: "env".to_string(), site: "E_Init".to_string(), arg: 0,
-            next: "".to_string(), narg: 0, op: idle_op(), ret: RetRec { st: -1, v: -1, exp: -1, ..Default::default() }, ev: Vec::new(),
+            next: "".to_string(), narg: 0, op: idle_op(), ret: RetRec { st: -1, v: -1, exp: -1, ..Default::default() }, ev: Vec::new(), truth: Vec::new(),
             pc: ctl.pcs(), s: state.clone(), cfg: Some(cfg.clone()),
         });
 
@@ -408,10 +412,11 @@ impl<'a> Driver<'a> {
         let max_steps = if scenario.max_steps == 0 { 20000 } else { scenario.max_steps };
         let mut stuck = false;
 
-        let (mut rng, stall_sweeper, stall_consumer, advance_pct, max_advance, sweeper_pct, sticky_pct) = match &scenario.schedule {
-            Schedule::Random { seed, stall_sweeper, stall_consumer, advance_pct, max_advance, sweeper_pct, sticky_pct } =>
-                (StdRng::seed_from_u64(*seed), *stall_sweeper, *stall_consumer, *advance_pct, (*max_advance).max(1), *sweeper_pct, *sticky_pct),
-            Schedule::List { .. } => (StdRng::seed_from_u64(0), false, false, 0, 1, 100, 0),
+        let (mut rng, stall_sweeper, stall_consumer, advance_pct, max_advance, sweeper_pct, sticky_pct, worker_pct) = match &scenario.schedule {
+            Schedule::Random { seed, stall_sweeper, stall_consumer, advance_pct, max_advance, sweeper_pct, sticky_pct, worker_pct } =>
+                (StdRng::seed_from_u64(*seed), *stall_sweeper, *stall_consumer, *advance_pct, (*max_advance).max(1), *sweeper_pct, *sticky_pct,
+                 if *worker_pct == 0 { 100 } else { *worker_pct }),
+            Schedule::List { .. } => (StdRng::seed_from_u64(0), false, false, 0, 1, 100, 0, 100),
         };
         let mut last_actor: Option<String> = None;
         let list: Option<Vec<ListStep>> = match &scenario.schedule { Schedule::List { steps, .. } => Some(steps.clone()), _ => None };
@@ -419,6 +424,7 @@ impl<'a> Driver<'a> {
         let mut list_pos = 0usize;
         let mut pending_polls: HashMap<String, u32> = HashMap::new();
         let mut idle_steps = 0usize;
+        let mut id_key: HashMap<i64, i64> = HashMap::new();
 
         while hang.is_none() && (step_no as usize) < max_steps {
             // ---- choose
@@ -440,7 +446,7 @@ impl<'a> Driver<'a> {
                         self.emit(&StepRec {
                             t: "note".to_string(), run: self.run_no, i: step_no, actor: step.a.clone(), site: "E_Infeasible".to_string(), arg: 0,
                             next: at.unwrap_or_default(), narg: 0, op: idle_op(), ret: RetRec { st: -1, v: -1, exp: -1, ..Default::default() },
-                            ev: Vec::new(), pc: ctl.pcs(), s: state.clone(), cfg: None,
+                            ev: Vec::new(), truth: Vec::new(), pc: ctl.pcs(), s: state.clone(), cfg: None,
                         });
                         list_pos = steps.len();
                         continue;
@@ -455,7 +461,7 @@ impl<'a> Driver<'a> {
                     let weight = match role.as_str() {
                         "sweeper" => if stall_sweeper && site == "S_Tick" { 0 } else if site == "S_Tick" { sweeper_pct.max(1) } else { 100 },
                         "consumer" => if stall_consumer { 0 } else { 100 },
-                        "worker" => 100,
+                        "worker" => if site == "W_Recv" { worker_pct } else { worker_pct.max(30) },
                         _ => {
                             if site == "C_Poll" {
                                 let op = ctl.current_op.get(role).cloned().unwrap_or_default();
@@ -526,7 +532,7 @@ impl<'a> Driver<'a> {
                 op.d = advance;
                 self.emit(&StepRec {
                     t: "step".to_string(), run: self.run_no, i: step_no, actor, site: "E_Advance".to_string(), arg: advance,
-                    next: "E_Advance".to_string(), narg: 0, op, ret: RetRec { st: -1, v: -1, exp: -1, ..Default::default() }, ev: Vec::new(),
+                    next: "E_Advance".to_string(), narg: 0, op, ret: RetRec { st: -1, v: -1, exp: -1, ..Default::default() }, ev: Vec::new(), truth: Vec::new(),
                     pc: ctl.pcs(), s: state.clone(), cfg: None,
                 });
                 continue;
@@ -558,6 +564,28 @@ impl<'a> Driver<'a> {
             // events, with acknowledgement pointers replaced by small numbers
             let mut events = Vec::new();
             for ev in sched.drain_events() {
+                if ev.name == "lk" || ev.name == "q" {
+                    if let Some(locks) = self.locks.as_mut() {
+                        let name = |address: i64, ctl: &Ctl| -> String {
+                            if let Some(name) = lock_names.get(&address) { return name.clone(); }
+                            for (_, ack) in &ctl.ack_handles {
+                                for (id, name) in ack.handle().verif_lock_ids() { if id == address { return name; } }
+                            }
+                            for ack in shared.acks.lock().unwrap().values() {
+                                for (id, name) in ack.handle().verif_lock_ids() { if id == address { return name; } }
+                            }
+                            "ackOther".to_string()
+                        };
+                        let record = if ev.name == "lk" {
+                            serde_json::json!({"run": self.run_no, "i": step_no, "role": ev.role, "site": site, "e": "lk", "op": ev.fields[0], "l": name(ev.fields[1], &ctl), "m": ev.fields[2]})
+                        } else {
+                            serde_json::json!({"run": self.run_no, "i": step_no, "role": ev.role, "site": site, "e": "q", "op": ev.fields[0], "l": format!("q{}", ev.fields[1]), "m": 1})
+                        };
+                        serde_json::to_writer(&mut **locks, &record).unwrap();
+                        locks.write_all(b"\n").unwrap();
+                    }
+                    continue;
+                }
                 let mut fields = ev.fields.clone();
                 if matches!(ev.name.as_str(), "send" | "recv" | "done") && !fields.is_empty() {
                     fields[0] = ctl.ack_number(fields[0]);
@@ -581,10 +609,37 @@ impl<'a> Driver<'a> {
                     }
                 }
             }
+            // what the sketch really estimates for the keys named in this step's admission events
+            let mut truth: Vec<Vec<i64>> = Vec::new();
+            for event in &events {
+                if event.e == "send" && event.f.len() > 2 && event.f[2] > 0 {
+                    if let Some(current) = ctl.current_op.get(&actor) { id_key.insert(event.f[2], current.k); }
+                }
+            }
+            for entry in &state.kw { id_key.insert(entry.id, entry.k); }
+            for event in &events {
+                let ids: Vec<i64> = match event.e.as_str() {
+                    "sample" | "refill" => { let mut ids = vec![event.f[0]]; ids.extend(event.f.iter().skip(2).step_by(3).copied()); ids }
+                    "victim" => vec![event.f[0]],
+                    _ => Vec::new(),
+                };
+                for id in ids {
+                    if truth.iter().any(|pair| pair[0] == id) { continue; }
+                    if let Some(key) = id_key.get(&id) {
+                        let hash = match cfg.hash.as_str() {
+                            "id" => *key as u64,
+                            "const" => 7,
+                            _ => { use std::hash::{Hash, Hasher}; let mut hasher = std::collections::hash_map::DefaultHasher::new(); (*key as u64).hash(&mut hasher); hasher.finish() }
+                        };
+                        truth.push(vec![id, cache.verif_estimate(hash) as i64]);
+                    }
+                }
+            }
             state = ctl.state();
+            for entry in &state.kw { id_key.insert(entry.id, entry.k); }
             self.emit(&StepRec {
                 t: "step".to_string(), run: self.run_no, i: step_no, actor: actor.clone(), site, arg: clamp(arg), next, narg: clamp(narg),
-                op, ret, ev: events, pc: ctl.pcs(), s: state.clone(), cfg: None,
+                op, ret, ev: events, truth, pc: ctl.pcs(), s: state.clone(), cfg: None,
             });
         }
 
@@ -592,7 +647,7 @@ impl<'a> Driver<'a> {
         self.emit(&StepRec {
             t: "end".to_string(), run: self.run_no, i: step_no + 1, actor: "env".to_string(),
             site: if hang.is_some() { "E_Hang".to_string() } else if stuck { "E_Stuck".to_string() } else { "E_End".to_string() },
-            arg: 0, next: "".to_string(), narg: 0, op: idle_op(), ret: RetRec { st: -1, v: -1, exp: -1, ..Default::default() }, ev: Vec::new(),
+            arg: 0, next: "".to_string(), narg: 0, op: idle_op(), ret: RetRec { st: -1, v: -1, exp: -1, ..Default::default() }, ev: Vec::new(), truth: Vec::new(),
             pc: ctl.pcs(), s: state.clone(), cfg: None,
         });
         let outcome = RunOutcome { steps: step_no as usize, hang: hang.clone(), stuck, schedule: schedule_log };
